@@ -17,7 +17,7 @@ from .. import e2e, guard
 from ..common import Rng, hx, unhx
 from ..runner import Check
 from ..translate import graphql_tables
-from . import c17_bridge
+from . import c17_bridge, c17_order
 
 NoneType = type(None)
 BUILTIN = {"Int": "int", "Float": "float", "String": "str", "Boolean": "bool", "ID": "str"}  # GraphQL spec §3.5
@@ -553,7 +553,7 @@ def validate_instance(cls, kind: str, value):
         pydantic.TypeAdapter(cls).validate_python(value)
 
 
-FLAGS = ["use_standard_collections", "use_union_operator", "force_optional_for_required_fields"]
+FLAGS = c17_order.SPELLING_FLAGS  # use_union_operator, use_standard_collections, force_optional_for_required_fields, field_constraints, use_annotated
 
 
 def classify_import_error(e: BaseException, schema=None) -> str:
@@ -634,11 +634,15 @@ def oracle_case(ck: Check, camp, sdl: str, kind: str, flags: dict, scalar_map: d
     # evaluated to) would be shared between the modules of different cases of this process
     for clear in typing._cleanups:  # noqa: SLF001
         clear()
+    observation = {"sdl": sdl, "kind": kind, "flags": flags, "code": code, "import_error": None}
+    if hasattr(ck, "c17_obs"):
+        ck.c17_obs.append(observation)  # the ordering correspondence (c17_order.campaign_order) looks at the same module
     try:
         mod = e2e.load_module(code, kind)
     except BaseException as e:  # noqa: BLE001
         if isinstance(e, (KeyboardInterrupt, SystemExit)):
             raise
+        observation["import_error"] = (type(e).__name__, getattr(e, "name", None))
         fail(classify_import_error(e, schema), f"importing the generated module raised {type(e).__name__}: {str(e)[:200]}")
         return
     try:
@@ -689,7 +693,18 @@ def _check_module(ck, camp, fail, schema, mod, code, kind, flags, scalar_map, se
             else:
                 args = typing.get_args(al) if typing.get_origin(al) in (typing.Union, types.UnionType) else ()
                 have = {a.__forward_arg__ if isinstance(a, typing.ForwardRef) else getattr(a, "__name__", repr(a)) for a in args}
-                ok = have == want
+                # the alias denotes exactly the union of the member CLASSES of this module: a forward
+                # reference is what its text evaluates to in the module's namespace
+                denoted = []
+                for a in args:
+                    if isinstance(a, (typing.ForwardRef, str)):
+                        try:
+                            a = eval(a.__forward_arg__ if isinstance(a, typing.ForwardRef) else a, vars(mod))  # noqa: S307 - a name written by the generator
+                        except Exception:  # noqa: BLE001
+                            a = None
+                    denoted.append(a)
+                ok = have == want and len(args) == len(want) and all(isinstance(d, type) for d in denoted) \
+                    and set(denoted) == {getattr(mod, m) for m in want}
             if not ok:
                 return fail("union_alias", f"union {n}: alias over {sorted(have)}, members are {sorted(want)}")
 
@@ -789,13 +804,21 @@ def campaign_e2e(ck: Check, n_docs: int, variants: int) -> None:
     rng = ck.rng.fork("e2e")
     for sdl, kind, flags, smap in CORPUS:
         oracle_case(ck, camp, sdl, kind, flags, smap, 1)
+    me = sys.modules[__name__]
     for i in range(n_docs):
-        doc = gen_doc(rng, safe_unions=not rng.chance(1, 5), nested_ifaces=rng.chance(1, 4))
+        if i % 3 == 2:
+            # the interface-chain / union family, every parameter from the seed
+            depth = rng.range(2, 4)
+            doc = c17_order.gen_chain_doc(
+                rng, me, depth=depth, direction=rng.choice(c17_order.DIRECTIONS), nullable_only=rng.chance(1, 2),
+                union_shape=rng.choice(c17_order.UNION_SHAPES), member_level=rng.choice(["top", "mid", "root"]), cyclic=rng.chance(2, 3))
+        else:
+            doc = gen_doc(rng, safe_unions=not rng.chance(1, 5), nested_ifaces=rng.chance(1, 3))
         sdl = render_doc(doc)
         scalars = [k for k, v in doc.items() if v["kind"] == "scalar"]
         kinds = e2e.EXECUTABLE_KINDS if i % 3 == 0 else rng.sample(e2e.EXECUTABLE_KINDS, variants)
         for kind in kinds:
-            flags = {f: True for f in FLAGS if rng.chance(1, 3)}
+            flags = c17_order.legal_flags({f: True for f in FLAGS if rng.chance(1, 3)})
             smap = {s: rng.choice(["int", "float", "bool", "str"]) for s in scalars if rng.chance(1, 3)}
             # the configured Python type must be honoured for the predefined scalars as well
             for b in BUILTIN:
@@ -918,7 +941,13 @@ def run(ck: Check) -> None:
     guard.campaign(ck, campaign_parse_field, 12 if quick else 100, 40)
     guard.campaign(ck, c17_bridge.campaign_annotation, 20 if quick else 160, 40, sys.modules[__name__])
     guard.campaign(ck, campaign_object_like, 120 if quick else 1000)
+    ck.c17_obs = []
+    me = sys.modules[__name__]
+    guard.campaign(ck, c17_order.campaign_family, me, quick)
     guard.campaign(ck, campaign_e2e, 150 if quick else 1200, 2)
+    guard.campaign(ck, c17_order.campaign_order, me)
+    ck.c17_obs = []
+    ck.search_hooks.append(lambda c: c17_order.search_order(c, me))
     ck.search_hooks.append(search_wrappers)
     ck.search_hooks.append(shrink_first_failure)
     shrink_first_failure(ck)
